@@ -49,6 +49,12 @@ def scenarios(tier):
                     continue
                 jobs.append((scn, bound, 40 if quick else 1200, 1, 'join',
                              ai))
+                if sched == 'legacy' and (ai == 0 or not quick):
+                    # join creation (named lock) and refresh overlapping
+                    # with branch completions
+                    jobs.append((common.variant(scn, '/overlap', rp=True),
+                                 1 if quick else 2, 40 if quick else 1200,
+                                 1, 'join', ai + 0.5))
     for name, (prog, target) in wfgen.reverse_shapes(
             3 if quick else 4).items():
         n = wfgen.program_size(prog)
